@@ -21,7 +21,7 @@ BOUNDS = {
     "quick": "abc|abt explicit, abc generated, diamonds explicit, conn2/abc generated, closure/ab generated",
     "thorough": "quick + abct, abcdt, abu w3, d3 chains, diamonds generated, conn2/abcd, closure/abc",
 }
-QUICK = ["abc/explicit", "abt/explicit", "abc/generated", "diamond/explicit", "conn2/abc/generated", "closure/ab/generated", "mix3/abtn/explicit", "empty/ab", "notraw/at+explicit", "notraw/mix3+abt+explicit", "illdef/x", "notraw/d3+ab+explicit"]
+QUICK = ["abc/explicit", "abt/explicit", "abc/generated", "diamond/explicit", "conn2/abc/generated", "closure/ab/generated", "mix3/abtn/explicit", "empty/ab", "notraw/at+explicit", "notraw/mix3+abt+explicit", "illdef/x", "notraw/d3+ab+explicit", "alt/mix3b+abt+explicit"]
 THOROUGH = QUICK + ["abct/explicit", "abcdt/explicit", "abu/explicit/w3", "d3/abc/explicit", "d3/abt/generated", "diamond/generated",
                     "conn2/abcd/generated", "closure/abc/generated", "abtn/explicit"]
 MAXCOLS = 14
